@@ -53,3 +53,105 @@ Proof. exact query_try_from_total. Qed.
 Theorem C09_remainder_bounded : forall dt re s q r,
   parse_query dt re s = Ok (q, r) -> length r <= length s.
 Proof. exact parse_query_remainder. Qed.
+
+(* ------------------------------------------------------------------------------------------
+   (e) print-then-parse.  Full statement (kept visible; proved bottom-up as far as single
+   constraints, the query level is backed by the correspondence run only):
+
+     for the datetime oracle dt (canonical forms are tokens classified as datetimes and their
+     own canonical form) and any regex oracle re, every well-formed query outside the known
+     classes is a fixpoint of parse . print.                                                   *)
+From Stam Require Import Spec.StamqlSpec Proofs.StamqlFix.
+Import ListNotations.
+
+Definition C09_print_parse_fix_statement : Prop :=
+  forall (dt : str -> option str) (re : str -> bool) (q : query),
+    wf_query dt re true q = true -> known_class dt q = 0 ->
+    fixpoint_at (parse_query dt re) q.
+
+(* tokens *)
+Theorem C09_quoted_token : forall dt s rest,
+  bad_quote s = false ->
+  get_arg dt (quoted s ++ rest) = Ok (s, trim_start rest, get_arg_type dt s true).
+Proof. exact get_arg_quoted. Qed.
+
+Theorem C09_raw_token : forall dt t c rest,
+  tok_ok t = true -> is_term c = true ->
+  get_arg dt (t ++ c :: rest) = Ok (t, trim_start (c :: rest), get_arg_type dt t false).
+Proof. exact get_arg_raw. Qed.
+
+(* numbers: Display of isize / Cursor and the conversions the parser applies *)
+Theorem C09_integer_roundtrip : forall dt z, in_isize z ->
+  parse_isize (print_Z z) = Some z /\ get_arg_type dt (print_Z z) false = TInteger.
+Proof. intros. split; [apply parse_isize_print | apply get_arg_type_print_Z]; assumption. Qed.
+
+Theorem C09_cursor_roundtrip : forall c, cursor_valid c -> cursor_of_str (print_cursor c) = Some c.
+Proof. exact cursor_of_str_print. Qed.
+
+Theorem C09_offset_roundtrip : forall dt o rest, off_valid o ->
+  parse_offset dt (trim_start (print_offset o ++ c_semicolon :: rest)) = Ok (o, c_semicolon :: rest).
+Proof. exact read_offset. Qed.
+
+(* data operators: the printed operator is parsed back to the same operator *)
+Theorem C09_dataop_fixpoint : forall dt o t rest, op_ok dt o -> print_dataop o = Some t ->
+  read_op dt (t ++ c_semicolon :: rest) = Ok (o, c_semicolon :: rest).
+Proof. exact read_op_print. Qed.
+
+(* single constraints: every constraint variant the parser produces except unions, well-formed
+   and outside the known classes, followed by any text without trailing white space *)
+Theorem C09_print_parse_fix_partial : forall dt re f c t rest,
+  wf_constr dt re c = true -> class_free dt c = true -> (forall l, c <> CUnion l) ->
+  print_constraint c = Some t -> no_trail (t ++ rest) ->
+  parse_constraint dt re (S f) (t ++ rest) = Ok (c, [], trim_start rest).
+Proof. exact constraint_fixpoint. Qed.
+
+(* the known classes are real failures of the full statement, not a loosened check *)
+Definition nodt (s : str) : option str := None.
+Definition anyre (s : str) : bool := true.
+Definition refuted (q : query) (k : nat) : Prop :=
+  wf_query nodt anyre true q = true /\ known_class nodt q = k /\ ~ fixpoint_at (parse_query nodt anyre) q.
+Definition sel (cs : list constr) : query :=
+  Q None QSelect false (Some RAnnotation) [] cs (map (fun _ => []) cs) [] [].
+
+Ltac refute := split; [reflexivity|]; split; [reflexivity|]; intros H;
+               match goal with H : fixpoint_at _ ?q |- _ =>
+                 let t := eval vm_compute in (print_query q) in
+                 match t with Some ?s => specialize (H s eq_refl); vm_compute in H; discriminate end
+               end.
+
+Local Open Scope N_scope.
+Lemma Known_C09_assignments_witness :
+  refuted (Q None QAdd false (Some RAnnotation) [AData [115] [107] (VString [53])] [] [] [] []) 1%nat.
+Proof. refute. Qed.
+Lemma Known_C09_quote_witness : refuted (sel [CId [97; 98; 92]]) 2%nat.
+Proof. refute. Qed.
+Lemma Known_C09_rawvar_witness : refuted (sel [CTextVar [97; 32; 98]]) 3%nat.
+Proof. refute. Qed.
+Lemma Known_C09_float_witness : refuted (sel [CValue (Pos (BLeaf (LFlt (FDec false 1%Z [5])))) QNormal]) 4%nat.
+Proof. refute. Qed.
+Lemma Known_C09_keyword_witness : refuted (sel [CResource [82; 69; 67; 85; 82; 83; 73; 86; 69] QMetadata None]) 5%nat.
+Proof. refute. Qed.
+Lemma Known_C09_depth_witness : refuted (sel [CAnnotation [120] QNormal DMax None]) 6%nat.
+Proof. refute. Qed.
+Lemma Known_C09_keyvaluevar_witness : refuted (sel [CKeyValueVar [107] (Pos (BLeaf (LInt 1%Z))) QNormal]) 7%nat.
+Proof. refute. Qed.
+Lemma Known_C09_relation_witness : refuted (sel [CTextRel [97] RSameRange true]) 8%nat.
+Proof. refute. Qed.
+Lemma Known_C09_any_witness : refuted (sel [CKeyValue [115] [107] (Pos BAny) QNormal]) 9%nat.
+Proof. refute. Qed.
+
+(* non-vacuity: a query with qualifiers, offsets, data operators, a union and sub-queries is a fixpoint *)
+Example C09_nonvacuous :
+  let q := Q (Some [97]) QSelect false (Some RAnnotation) []
+             [CKeyValue [115] [107] (Neg (BLeaf (LInt (-5)%Z))) QMetadata;
+              CUnion [CId [120]; CResource [114] QMetadata (Some (CB 1%Z, CE (-2)%Z))];
+              CLimit (-3)%Z 0%Z]
+             [[[64; 121]]; []; []]
+             [Q (Some [100]) QSelect true (Some RData) [] [CAnnotationVar [97] QMetadata DMax None] [[]] [] [[64; 113]];
+              Q (Some [116]) QSelect false (Some RText) [] [] [] [] []]
+             [[64; 120]] in
+  wf_query nodt anyre true q = true /\ known_class nodt q = 0%nat /\ fixpoint_at (parse_query nodt anyre) q.
+Proof.
+  cbv zeta. split; [reflexivity|]. split; [reflexivity|]. intros t H. vm_compute in H. inversion H; subst.
+  vm_compute. reflexivity.
+Qed.
